@@ -179,8 +179,8 @@ PROPS = {
                              "the verdict of a directory against the ignore file stored in that very directory is left unspecified by the statement; multi-path events are only decided for zero or one path"],
                 claim="IgnoreFilter::match_path proved by Verus (loop invariant, termination): only ignore files of directories containing the path are consulted, nearest first, each once, none skipped when nothing matched, verdict = nearest match; check_dir and IgnoreFilterer::check_event (0/1 path) proved against it",
                 trusted="stand-ins + path-theory axioms in prelude/ignore_env.rs; sequence reasoning in verified wrappers (units/ignore/spec.rs)"),
-    "C12": dict(units=["clifilter", "clipatterns"], level="proof",
-                assumptions=["clap parsing of argv into Args is not decided; discovery itself (ignore_files::from_origin / from_environment: the head of dirs::ignores) is C14 territory and enters as arbitrary lists",
+    "C12": dict(units=["clifilter", "clipatterns", "discover"], level="proof",
+                assumptions=["clap parsing of argv into Args is not decided; discovery itself (ignore_files::from_origin / from_environment: the head of dirs::ignores) enters the CLI units as arbitrary lists; the VCS label from_origin gives each discovered file, which --no-vcs-ignore and the vcs filter act on, is from_origin's own result obligation (unit discover, tagged C14+C12)",
                              "dirs::ignores = head (discovery, not extracted) followed by the verified tail whose result is the function's result; WatchexecFilterer::new beyond its first statement (filters, built-in list, extensions: format!/String code) is covered only by the structural obligations C12.structure.* (which flags are read where)",
                              "iterator adapter idioms (filter/map/extend/collect) are redirected to prelude functions with sequence-level specs (R10d); every closure body is proved against its clause and ghost twin",
                              "filter files' I/O (read_filter_file) not decided"],
@@ -245,11 +245,16 @@ PROPS["C07"]["thorough_engines"] = [_hist("supervisor", sc, "C07", w) for sc, w 
     ("drop_last_handle_idle", "dropping the last handle of an idle job ends the job task cleanly"),
     ("ticket_outlives_handles", "a ticket outliving all handles resolves"),
     ("control_queued_behind_delete_resolves", "the ticket of a control queued behind delete() resolves when the job task ends")]]
+# "delivers the requested signal": the job task hands the requested Signal to Signal::to_nix (a stand-in in unit task); that the conversion yields that very OS
+# signal is the Kani obligation C19+C06.signal_to_nix.number_preserved on the real function
+PROPS["C06"]["engines"] = PROPS["C06"].get("engines", []) + [_kani.make_engine("signals")]
 PROPS["C06"]["thorough_engines"] = [_hist("supervisor", "try_graceful_restart_once", "C06", "a graceful try-restart past its deadline starts the replacement exactly once")]
 PROPS["C03"]["thorough_engines"] = [_hist("ignorefiles", sc, "C03", w) for sc, w in [
     ("prefix_sibling_negation", "a negation in test/.gitignore does not leak into tests/"),
     ("prefix_sibling_shadow", "a hit in test/.gitignore does not shadow the root file for tests/"),
     ("same_directory_files_keep_their_listed_order", "two files applying in one directory (a large `*.log` file listed first, a small `!keep.log` file second) are evaluated in their listed order on each of 400 constructions from identical inputs (D17)")]] + [
+    replay_engine("ignorefiles", "ignore_files_outside_the_origin", "C03.bounded.files_outside_the_origin_apply_in_their_own_directory",
+    "the real IgnoreFilter with ignore files of a sibling of the origin and of the directory above it (alone, together, in both listed orders) x 2 constructions (new, empty + add_file) x 6 probes (48 verdicts): each file applies in its own directory only, its patterns relative to that directory"),
     replay_engine("ignorefiles", "ignore_rule_bounded", "C03.bounded.verdict_is_the_nearest_file_first_evaluation",
     "the real IgnoreFilter on 320 ignore-file configurations (origin, test/, test/sub/, tests/, tests/sub/; negations, rooted, dir-only, **/ and a/b patterns) x 3 constructions (new, new with the files listed deepest first, empty + add_file) x ~53 probes, plus 196 two-path events per configuration (114032 verdicts): match_path, check_dir and IgnoreFilterer::check_event (single paths, and two paths folded left to right) equal an independent nearest-file-first evaluation with the ignore crate's matcher per file")]
 PROPS["C13"]["thorough_engines"] = [_hist("lib", sc, "C13", w) for sc, w in [
@@ -301,7 +306,7 @@ def _promote(prop, pred):
     PROPS[prop]["engines"] = PROPS[prop].get("engines", []) + mv
     PROPS[prop]["thorough_engines"] = [e for e in te if e not in mv]
     PROPS[prop]["fallback"] = [e for e in fb if e not in mv]
-_promote("C03", lambda e: getattr(e, "vx_scenario", "") == "ignore_rule_bounded")
+_promote("C03", lambda e: getattr(e, "vx_scenario", "") in ("ignore_rule_bounded", "ignore_files_outside_the_origin"))
 _promote("C20", lambda e: getattr(e, "vx_scenario", "") == "origins_markers_bounded")
 _promote("C11", lambda e: getattr(e, "vx_scenario", "") == "globset_rule_bounded")
 PROPS["C14"]["thorough_engines"] = PROPS["C14"]["thorough_engines"] + [replay_engine("ignorefiles", "discovery_rule_bounded", "C14.bounded.discovery_equals_the_reachability_rule",
